@@ -89,11 +89,13 @@ func Dot(spec *Spec, w io.WriteCloser, fromNode, toNode string) error {
 		if n.Action != nil || n.ActionSource != nil {
 			shape = "note"
 			var src string
-			x := n.ActionSource.Source
-			if s, is := x.(string); is {
+			if n.ActionSource == nil {
+				// An action given as Go code.
+				src = "(native action)"
+			} else if s, is := n.ActionSource.Source.(string); is {
 				src = s
 			} else {
-				src = fmt.Sprintf("%#v", x)
+				src = fmt.Sprintf("%#v", n.ActionSource.Source)
 			}
 			src = strings.Replace(src, "<", `&lt;`, -1)
 			src = strings.Replace(src, ">", `&gt;`, -1)
